@@ -1114,7 +1114,12 @@ class SshX509Certificate(ParsableBase, SshHostKeyBase):
 
         public_key = parser['public_key']
         if host_key_algorithm is None:
-            host_key_algorithm = cls._NOT_DEFINED_HOST_KEY_ALGORITHMS_BY_PUBLIC_KEY_TYPE.get(public_key.key_type, None)
+            try:
+                key_type = public_key.key_type
+            except ValueError as e:
+                six.raise_from(InvalidValue(parsable, cls, 'public_key'), e)
+
+            host_key_algorithm = cls._NOT_DEFINED_HOST_KEY_ALGORITHMS_BY_PUBLIC_KEY_TYPE.get(key_type, None)
             if host_key_algorithm is None:
                 raise InvalidType()
 
